@@ -3,7 +3,7 @@ from fractions import Fraction as Fr
 import warnings
 import numpy as np
 from harness import coqio as Q
-from harness.impl import lin_wcs, exc_name
+from harness.impl import poke, lin_wcs, exc_name
 
 CORR = "C16_corr"
 IMPORTS = ["Shape", "M_Rebin", "M_RebinUnc"]
@@ -71,6 +71,7 @@ def run(case):
            "unknown": lambda: UnknownUncertainty(sig.copy()), "absent": lambda: None}[kind]()
     marr = mask.copy() if isinstance(mask, np.ndarray) else mask
     cube = NDCube(data.copy(), wcs=lin_wcs(len(shape)), uncertainty=unc, mask=marr)
+    poke(cube, case["key"])
     d0, m0 = cube.data.copy(), (cube.mask.copy() if isinstance(cube.mask, np.ndarray) else cube.mask)
     u0 = None if cube.uncertainty is None else cube.uncertainty.array.copy()
     op = getattr(np, case["op"])
